@@ -140,8 +140,22 @@ def _parse(r):
                     cur = None
                 elif cur[1]:
                     cur[1][last] += " " + line.strip()
-    # PrintT output: lines that look like TLA+ tuples starting with <<"
-    r.prints = [l for l in out.splitlines() if l.startswith('<<"')]
+    # PrintT output: tuples starting with <<" ; TLC wraps a tuple longer than 80 columns over several
+    # lines ("<< \"TAG\",\n   1,\n   \"...\" >>"), which must not be lost
+    r.prints = []
+    lines_ = out.splitlines()
+    i = 0
+    while i < len(lines_):
+        l = lines_[i]
+        if l.startswith('<<"'):
+            r.prints.append(l)
+        elif l.startswith('<< "'):
+            parts = [l[2:].strip()]
+            while not parts[-1].endswith(">>") and i + 1 < len(lines_):
+                i += 1
+                parts.append(lines_[i].strip())
+            r.prints.append("<<" + " ".join(parts).replace(" >>", ">>"))
+        i += 1
     for m in re.finditer(r"^<(\w+) line \d+, col \d+ to line \d+, col \d+ of module \w+>: (\d+):(\d+)", out, re.M):
         a, d, t = m.group(1), int(m.group(2)), int(m.group(3))
         pd, pt = r.coverage.get(a, (0, 0))
